@@ -132,7 +132,10 @@ class FileWriteable(FileReadable, metaclass=ABCMeta):
 
     def file_write(self) -> None:
         file_path = self.get_file(self.path)
-        with NamedTemporaryFile('w', delete=False) as tmp:
+        # The temporary file must be on the same filesystem as the file it
+        # replaces, os.rename() cannot move it across devices.
+        file_dir = os.path.dirname(file_path) or None
+        with NamedTemporaryFile('w', dir=file_dir, delete=False) as tmp:
             self.write(tmp)
         os.rename(tmp.name, file_path)
         self._touched = False
